@@ -155,6 +155,9 @@ func (w *World) monitorRestart() {
 			if ok && len(pkt) > 0 && pkt[0]>>4 == tPUBLISH {
 				if pending[e.N] {
 					w.Violate("C17", "identifier-reused-in-flight", "PUBLISH saved under %#04x while that identifier is still in flight", e.N)
+					if e.N >= 0xc000 {
+						w.Violate("C03", "identifier-reused-before-pubcomp", "exactly-once identifier %#04x given to another message before its PUBCOMP", e.N)
+					}
 				}
 				pending[e.N] = true
 			}
